@@ -18,6 +18,19 @@ from .. import termmodel as T
 
 DRIVERS = ["drv_style"]
 
+
+_SIG_COUNT = {}
+
+
+def _viol(rep, signature, what, replay):
+    """rep.violation, at most 3 cases per signature (core keeps the first 50 violations overall:
+    one noisy signature must not crowd out the others)."""
+    _SIG_COUNT[signature] = _SIG_COUNT.get(signature, 0) + 1
+    if _SIG_COUNT[signature] <= 3:
+        return rep.violation(signature, what, replay)
+    rep.count("violations-suppressed:" + signature)
+    return False
+
 # --------------------------------------------------------------------------- grammar
 
 ATTR_WORDS = ["bold", "dim", "italic", "ul", "blink", "reverse", "hidden", "strike"]
@@ -307,11 +320,11 @@ def check_parse_against_oracle(rep, case, impl, orc):
         in_grammar = all(w.strip("\"'") in VOCAB14 + ATTR_WORDS + NAMED + SPECIAL or
                          re.fullmatch(r"[0-9]{1,3}|#[0-9a-f]{6}", w.strip("\"'")) for w in s.lower().split())
         if in_grammar and not impl.startswith("FATAL"):
-            rep.violation("parse:accepts-invalid-style", "a style string with a third colour / syntax as background is accepted",
+            _viol(rep, "parse:accepts-invalid-style", "a style string with a third colour / syntax as background is accepted",
                           dict(op="style.parse", case=case, got=impl))
         return
     if not impl.startswith("ok "):
-        rep.violation("parse:rejects-valid-style", "a style string of the grammar is rejected",
+        _viol(rep, "parse:rejects-valid-style", "a style string of the grammar is rejected",
                       dict(op="style.parse", case=case, got=impl))
         return
     ansi, flags, _ = impl[3:].split(" ")
@@ -346,7 +359,7 @@ def check_parse_against_oracle(rep, case, impl, orc):
     ok = (got == exp and got_attrs == want["attrs"] and flags[1] == "01"[exp_omit]
           and flags[2] == "01"[exp_raw] and flags[3] == "01"[exp_syntax])
     if not ok:
-        rep.violation("parse:meaning-differs", "Style::from_str disagrees with the independent reading of the style string",
+        _viol(rep, "parse:meaning-differs", "Style::from_str disagrees with the independent reading of the style string",
                       dict(op="style.parse", case=case, got=impl,
                            expected=dict(fg=exp[0], bg=exp[1], attrs=sorted(want["attrs"]), omit=exp_omit, raw=exp_raw, syntax=exp_syntax)))
 
@@ -421,7 +434,7 @@ def corr_display_paint(ctx, rep, mdl, parsed):
             want = (dump_to_term(fg, 1, None), dump_to_term(bg, 1, None), frozenset(n for n, b in zip(names, attrs) if b == "1"))
             bad = [c for r in dec.rows for c in r.cells if c.style() != want or c.link is not None]
             if bad or not dec.final.is_default() or dec.problems:
-                rep.violation("paint:cells-differ-from-style", "Style::paint output does not carry exactly the style",
+                _viol(rep, "paint:cells-differ-from-style", "Style::paint output does not carry exactly the style",
                               dict(request=q, got=i, bad=repr(bad[:3]), final=dec.final.describe()))
 
 
@@ -675,7 +688,7 @@ def binary_oracle(ctx, rep):
             cells = find_cells(dec, o)
             b[o] = (cells[0].fg, cells[0].bg) if cells else (None, None)
             if o in ("minus-style", "plus-style", "minus-emph-style", "plus-emph-style") and cells is None:
-                rep.violation("binary:baseline-element-missing", "expected element not found in default rendering",
+                _viol(rep, "binary:baseline-element-missing", "expected element not found in default rendering",
                               dict(option=o, stdout=out.decode("utf-8", "replace")[:2000]))
         baseline[tc] = b
 
@@ -713,7 +726,7 @@ def binary_oracle(ctx, rep):
         rep.case(key=("binary", tuple(sorted(assign.items())), tc), nontrivial=bool(assign),
                  sample=dict(op="binary", assign=assign, true_color=tc, rc=rc))
         if rc != 0:
-            rep.violation("binary:valid-style-rejected", "delta failed on style strings of the grammar",
+            _viol(rep, "binary:valid-style-rejected", "delta failed on style strings of the grammar",
                           dict(replay, rc=rc, stderr=err.decode("utf-8", "replace")[-400:]))
             continue
         dec = T.decode(out)
@@ -726,12 +739,12 @@ def binary_oracle(ctx, rep):
                 continue
             cells = find_cells(dec, o)
             if not cells:
-                rep.violation("binary:element-missing:" + o, "painted element not found in the output",
+                _viol(rep, "binary:element-missing:" + o, "painted element not found in the output",
                               dict(replay, option=o, style=s))
                 continue
             bad = [c for c in cells if not style_matches(c, exp)]
             if bad:
-                rep.violation("binary:painted-style-differs:" + o,
+                _viol(rep, "binary:painted-style-differs:" + o,
                               "text painted with the option does not carry exactly the colours/attributes of the style string",
                               dict(replay, option=o, style=s, expected=T.style_key(*[e if not (isinstance(e, tuple) and e and e[0] == "quantised") else ("rgb",) + e[1] for e in exp[:2]], exp[2]),
                                    got=[T.style_key(c.fg, c.bg, c.attrs) for c in bad[:3]]))
@@ -743,7 +756,7 @@ def binary_oracle(ctx, rep):
             rc, out, err = ctx.run_delta(BASE_ARGS + ["--%s=%s" % (o, s)], DIFF)
             rep.case(key=("binary-fatal", o, s), nontrivial=True)
             if rc != 2 or out:
-                rep.violation("binary:invalid-style-accepted", "a style with three colours / syntax background is not the fatal error",
+                _viol(rep, "binary:invalid-style-accepted", "a style with three colours / syntax background is not the fatal error",
                               dict(args=BASE_ARGS + ["--%s=%s" % (o, s)], rc=rc))
     return baseline
 
@@ -810,10 +823,10 @@ def show_config_round_trip(ctx, rep):
         rep.count("show-config:" + o)
         replay = dict(kind="show-config", option=o, style=s, true_color=tc, reported=v)
         if v is None:
-            rep.violation("show-config:no-value:" + o, "--show-config does not print the option", replay)
+            _viol(rep, "show-config:no-value:" + o, "--show-config does not print the option", replay)
             continue
         if r1[0] != 0 or r2[0] != 0:
-            rep.violation("show-config:reported-value-rejected:" + o, "the reported value is not accepted as the option value",
+            _viol(rep, "show-config:reported-value-rejected:" + o, "the reported value is not accepted as the option value",
                           dict(replay, rc=[r1[0], r2[0]]))
             continue
         d1, d2 = T.decode(r1[1]), T.decode(r2[1])
@@ -822,7 +835,7 @@ def show_config_round_trip(ctx, rep):
         if not same:
             lost = sorted(oracle_parse(s)["attrs"] - (oracle_parse(v)["attrs"] if oracle_parse(v) != "error" else set()))
             sig = "show-config:round-trip-differs:" + (",".join(lost) + "-lost" if lost else "other")
-            rep.violation(sig, "the style reported by --show-config renders differently when supplied again",
+            _viol(rep, sig, "the style reported by --show-config renders differently when supplied again",
                           dict(replay, lost_attributes=lost))
 
 
@@ -870,7 +883,7 @@ def invariance_oracle(ctx, rep, orc):
             rep.case(key=m, nontrivial=True)
             rep.count("invariance:perm")
             if a != b:
-                rep.violation("parse:order-or-case-sensitive", "permuting attribute words / changing case changed the parsed style",
+                _viol(rep, "parse:order-or-case-sensitive", "permuting attribute words / changing case changed the parsed style",
                               dict(a=m[1], b=m[2], default=m[3], true_color=m[4], got=[a, b]))
             last = a
         else:
@@ -882,7 +895,7 @@ def invariance_oracle(ctx, rep, orc):
             if last == b and last.startswith("ok") and oa != "error" and \
                     [c for c in oa["colors"]] != [c for c in ob["colors"]] and \
                     not (m[3] == "-" and set(oa["colors"]) <= {None, "auto"}):
-                rep.violation("parse:colour-order-ignored", "swapping foreground and background did not change the style",
+                _viol(rep, "parse:colour-order-ignored", "swapping foreground and background did not change the style",
                               dict(a=m[1], b=m[2], got=last))
 
 
